@@ -310,7 +310,7 @@ def check_C14(chk):
     # receive side: a receive-and-decode issued from inside another value's Deserialize (model: TlsRecv)
     nlines, ncases = [], []
     for i in range(400 if thorough else 60):
-        c = {"id": i + 1, "bad": int(rng.random() < 0.3), "prop": int(rng.random() < 0.6), "nafter": rng.randint(0, 4), "ninner": rng.randint(0, 3)}
+        c = {"id": i + 1, "bad": rng.choice([0, 0, 0, 0, 1, 1, 2, 2]), "prop": int(rng.random() < 0.6), "nafter": rng.randint(0, 4), "ninner": rng.randint(0, 3)}
         ncases.append(c)
         nlines.append("id=%(id)d bad=%(bad)d prop=%(prop)d nafter=%(nafter)d ninner=%(ninner)d" % c)
     recs, _, rc, err = C.run_harness(bins["default"], "nestrecv", nlines, shim=False, timeout=300)
@@ -347,7 +347,10 @@ def check_C14(chk):
         ni, na = c["ninner"], c["nafter"]
         some = lambda xs: "[" + "; ".join("Some %d" % x for x in xs) + "]"
         lst = lambda xs: "[" + "; ".join(str(x) for x in xs) + "]"
-        if c["bad"]:
+        if c["bad"] == 2:
+            # bytes that read as an Inner claiming attachment 1, the empty region (no table access) and no further senders
+            inner_msg, inner_body = "{| tc := []; tr := [] |}", "[DChan 1; DData; DData]"
+        elif c["bad"]:
             inner_msg, inner_body = "{| tc := []; tr := [] |}", "[DChan 77; DRegion 0; DData]"
         else:
             inner_msg = "{| tc := %s; tr := [Some 100] |}" % some([1] + list(range(2, 2 + ni)))
